@@ -133,6 +133,15 @@ impl<T: Bounded> BVH<T> {
         // Al final del proceso contiene el nodo raíz
         let mut completed: BTreeMap<NodeId, BVHNode<T>> = BTreeMap::new();
 
+        // Caso de un único nodo terminal (número de elementos <= max_num_elements): es el nodo raíz
+        if node_list.len() == 1 {
+            if let Some(TreeElement(_, Leaf, _, _, Some(elements))) = node_list.pop() {
+                let aabb = elements.aabb();
+                return Self::new(Some(BVHNode::Leaf { aabb, elements }));
+            }
+            return Self::new(None);
+        }
+
         // Vamos añadiendo los nodos que tenemos a sus elementos padre y
         // a medida que los completamos los añadimos a sus respectivos padres
         while node_list.len() > 1 {
